@@ -211,6 +211,84 @@ def check_parallel_evaluator(h: Harness):
                    f"after ElitismStep with the ParallelEvaluator the individuals with values {vals} carry the fitness values {stored}", replay)
 
 
+def check_simplegp_elitism(h: Harness):
+    """the geml wrapper builds its step from `elitism`, `novelty` and `population_size`: with `elitism >= 1` the run it performs
+    reserves that many elitism slots -- the best fitness never gets worse, and the `elitism` best values of one generation are
+    matched or beaten, rank by rank, by the `elitism` best of the next"""
+    import pargrammar
+    from geml.simplegp import SimpleGP
+    g = pargrammar.grammar()
+    for (e, nov, pop, minimize, seed) in [(2, 0, 8, False, 1), (2, 0, 8, True, 2), (3, 1, 9, False, 3), (1, 3, 8, True, 4), (1, 0, 6, False, 5), (4, 0, 10, True, 6)]:
+        desc = f"SimpleGP(elitism={e}, novelty={nov}, population_size={pop}, minimize={minimize}, seed={seed})"
+        replay = {"elitism": e, "novelty": nov, "population_size": pop, "minimize": minimize, "seed": seed}
+        rec = sc.GenRecorder(limit=5000)
+        try:
+            sgp = SimpleGP(pargrammar.ff_plain, g, minimize=minimize, max_depth=5, max_evaluations=pop * 12, max_time=60, population_size=pop,
+                           elitism=e, novelty=nov, seed=seed)
+            sgp.gp.tracker.recorders.append(rec)
+            sgp.gp.search()
+        except Exception as ex:  # noqa: BLE001
+            h.fail("SimpleGP.search", "raises", f"{desc}: {type(ex).__name__}: {ex}"[:300], replay)
+            continue
+        problem = sgp.gp.problem
+        gens = rec.generations()
+        aggs = [sorted((as_int_agg(i.get_fitness(problem).maximizing_aggregate) for i in gen), reverse=True) for gen in gens]
+        h.count("simplegp-runs")
+        h.seen(f"simplegp-elitism:{e}:{nov}:{pop}:{minimize}", nontrivial=len(gens) > 2)
+        h.holds("SimpleGP.build_step", "best-fitness-decreased", ["prop_monotone", [a[0] for a in aggs if a]],
+                f"{desc}: best aggregate per generation {[a[0] for a in aggs if a]}", replay)
+        for k, (a, b_) in enumerate(zip(aggs, aggs[1:])):
+            worse = [j for j in range(min(e, len(a), len(b_))) if b_[j] < a[j]]
+            if worse:
+                h.fail("SimpleGP.build_step", "elite-slots-not-reserved",
+                       f"{desc}: the {e} best aggregates of generation {k} are {a[:e]}, those of generation {k + 1} are {b_[:e]}: with {e} elitism slots every "
+                       f"rank is matched or beaten", replay)
+                break
+
+
+def as_int_agg(x: float) -> int:
+    i = int(round(x))
+    assert float(i) == float(x), x
+    return i
+
+
+TINY16 = [("0.5+k*2^-40", lambda k: 0.5 + k * 2.0 ** -40), ("1+k*2^-52", lambda k: 1.0 + k * 2.0 ** -52), ("1e9+k*1e-6", lambda k: 1e9 + k * 1e-6),
+          ("-(7+k*1e-12)", lambda k: -(7.0 + (60 - k) * 1e-12)), ("k*1e-300", lambda k: k * 1e-300)]
+
+
+def check_near_equal_fitness(h: Harness):
+    """"best" is an order, not a distance: fitness values that differ in the 10th digit or by one ulp are different values, and an
+    excluded individual must not be strictly better than an included one however small the difference.  Judged by the same
+    predicate on the RANKS of the values."""
+    rng = h.rng
+    for trial in range(h.n(60, 600)):
+        name, f = TINY16[trial % len(TINY16)]
+        n = rng.randint(3, 9)
+        ranks = [rng.randint(0, 60) for _ in range(n)]
+        kind = ("max", "min")[trial % 2]
+        vals = [f(k) for k in ranks]
+        rep = StubRep(1)
+        problem = SingleObjectiveProblem(lambda p: p[1], minimize=(kind == "min"))
+        inds = [Individual((i, v, (v,)), rep) for i, v in enumerate(vals)]
+        # (individuals arrive in several "generations": an order by anything but fitness would show)
+        for j, ind in enumerate(inds):
+            ind.metadata["generation"] = j % 3
+        k = rng.randint(1, n - 1)
+        form = rng.choice(FORMS)
+        res = sc.run_step(ElitismStep(), problem, rep, TwoStreamSource([]), sc.as_form(form, inds, problem), k)
+        pop = [[i, (-r if kind == "min" else r), [0]] for i, r in enumerate(ranks)]
+        replay = {"ranks": ranks, "scale": name, "k": k, "form": form, "direction": kind}
+        h.count("elitism:near-equal-fitness:" + name)
+        h.seen(f"near-equal:{trial}", nontrivial=True)
+        if isinstance(res, str):
+            h.fail("ElitismStep.apply", "raises", f"ElitismStep.apply [{kind}] on values {[repr(v) for v in vals]}, target_size={k}: {res}", replay)
+            continue
+        out = [pop[i.genotype[0]] for i in res]
+        h.holds("ElitismStep.apply", "not-top-k", ["prop_topk", pop, k, out],
+                f"ElitismStep.apply [{kind}] on values {[repr(v) for v in vals]} (ranks {ranks}, scale {name}) given as a {form}, target_size={k}, returned the "
+                f"individuals with values {[repr(i.genotype[1]) for i in res]}: an excluded individual is strictly better than an included one", replay)
+
+
 def check_infinite_fitness(h: Harness):
     """fitness values at the ends of the number line: an infinitely GOOD individual (inf when maximising, -inf when
     minimising) must be in every non-empty elite, an infinitely bad one only when nothing else is left.  Judged by the
@@ -400,6 +478,8 @@ def check_elitism_beside_other_branches(h: Harness):
 
 def run(h: Harness):
     check_parallel_evaluator(h)
+    check_simplegp_elitism(h)
+    check_near_equal_fitness(h)
     check_elitism_beside_other_branches(h)
     check_elitism(h)
     check_infinite_fitness(h)
